@@ -30,24 +30,59 @@ use ops::{Fixture, OpDef};
 /// uninterrupted run; never masked when comparing with the pre-state).
 const MASK: &[(&str, &str)] = &[("accounts", "uuid"), ("addresses", "transparent_receiver_next_check_time"), ("orchard_ironwood_migrations", "uuid")];
 
+/// Select list of one table. Unmasked: every column as stored. Masked: the MASK columns are left
+/// out, and so is the surrogate key `addresses.id` - gap-limit addresses of several accounts are
+/// generated in hash-map order, so the ids (not the rows) differ from run to run - with every
+/// `address_id` reference replaced by the address's natural key.
+fn select_list(conn: &Connection, t: &str, masked: bool) -> String {
+    let cols: Vec<String> = {
+        let mut st = conn.prepare(&format!("PRAGMA table_info(\"{t}\")")).unwrap();
+        let r = st.query_map([], |r| r.get::<_, String>(1)).unwrap().map(|x| x.unwrap()).collect();
+        r
+    };
+    let sel: Vec<String> = cols
+        .iter()
+        .filter(|c| !(masked && (MASK.iter().any(|(mt, mc)| *mt == t && mc == c) || (t == "addresses" && *c == "id"))))
+        .map(|c| {
+            if masked && c == "address_id" {
+                format!("(SELECT a.account_id || ':' || a.key_scope || ':' || hex(a.diversifier_index_be) FROM addresses a WHERE a.id = \"{t}\".address_id)")
+            } else {
+                format!("\"{c}\"")
+            }
+        })
+        .collect();
+    sel.join(",")
+}
+
+/// Digest of every table. Unmasked (used against the pre-state): exact rows in storage order.
+/// Masked (used to compare a retry with an uninterrupted run): see `select_list`; rows sorted.
 pub fn digest(conn: &Connection, masked: bool) -> String {
     use sha2::{Digest, Sha256};
     let mut h = Sha256::new();
     for t in db::table_names(conn) {
         h.update(t.as_bytes());
         h.update([0]);
-        let cols: Vec<String> = {
-            let mut st = conn.prepare(&format!("PRAGMA table_info(\"{t}\")")).unwrap();
-            let r = st.query_map([], |r| r.get::<_, String>(1)).unwrap().map(|x| x.unwrap()).collect();
-            r
-        };
-        let sel: Vec<String> = cols.iter().filter(|c| !(masked && MASK.iter().any(|(mt, mc)| *mt == t && mc == c))).map(|c| format!("\"{c}\"")).collect();
-        for r in db::query_rows(conn, &format!("SELECT {} FROM \"{t}\"", sel.join(","))) {
+        let mut rows = db::query_rows(conn, &format!("SELECT {} FROM \"{t}\"", select_list(conn, &t, masked)));
+        if masked {
+            rows.sort();
+        }
+        for r in rows {
             h.update(r.as_bytes());
             h.update([1]);
         }
     }
     hex::encode(h.finalize())
+}
+
+/// The masked dump as lines "table|row" (for explaining a mismatch).
+fn dump_lines(conn: &Connection) -> std::collections::BTreeSet<String> {
+    let mut out = std::collections::BTreeSet::new();
+    for t in db::table_names(conn) {
+        for r in db::query_rows(conn, &format!("SELECT {} FROM \"{t}\"", select_list(conn, &t, true))) {
+            out.insert(format!("{t}|{r}"));
+        }
+    }
+    out
 }
 
 #[derive(Clone, Copy, Debug, PartialEq, Eq, PartialOrd, Ord, Hash, serde::Serialize, serde::Deserialize)]
@@ -227,7 +262,23 @@ pub fn inject(op: &OpDef, w: &mut Wallet, fx: &Fixture, pre: &db::Snapshot, m: &
                 return Err(format!("{}: after a {:?} fault at {k} was rolled back, repeating the operation gave {:?} (uninterrupted run: {})", op.name, class, r2, m.result));
             }
             if digest(w.db.conn(), true) != m.post_masked {
-                return Err(format!("{}: after a {:?} fault at {k}, repeating the operation reaches a state different from an uninterrupted run", op.name, class));
+                // show what differs: the retry's rows against a fresh uninterrupted run
+                let retry = dump_lines(w.db.conn());
+                db::restore(w.db.conn_mut(), pre);
+                w.refresh_accounts();
+                let _ = run_op(op, w, fx);
+                let reference = dump_lines(w.db.conn());
+                let only_retry: Vec<&String> = retry.iter().filter(|l| !reference.contains(*l)).take(3).collect();
+                let only_ref: Vec<&String> = reference.iter().filter(|l| !retry.contains(*l)).take(3).collect();
+                let order_only = only_retry.is_empty() && only_ref.is_empty();
+                return Err(format!(
+                    "{}: after a {:?} fault at {k}, repeating the operation reaches a state different from an uninterrupted run{}; rows only after the retry: {:?}; rows only in the uninterrupted run: {:?}",
+                    op.name,
+                    class,
+                    if order_only { " (same rows, different row order)" } else { "" },
+                    only_retry.iter().map(|l| l.chars().take(300).collect::<String>()).collect::<Vec<_>>(),
+                    only_ref.iter().map(|l| l.chars().take(300).collect::<String>()).collect::<Vec<_>>()
+                ));
             }
             Ok("err:rolled-back,retry-ok".into())
         }
@@ -262,7 +313,7 @@ pub fn inject(op: &OpDef, w: &mut Wallet, fx: &Fixture, pre: &db::Snapshot, m: &
 
 fn tier_ops(tier: Tier) -> Vec<&'static str> {
     match tier {
-        Tier::Quick => vec!["scan1@mid", "tip@fresh", "truncate@mid", "lock@mid", "create_account@fresh", "sapling_roots@fresh", "orchard_roots@fresh", "next_address@mid", "tip_beyond@mid", "mig_replace@none", "mig_supersede@live_locked", "mig_update_tx_mined@live", "lock_conflict@locked", "rewind_chain_state@full", "rewind_refused@sapling-checkpoints-above-only", "store_sent_p0@c08-full", "store_decrypted_p1_unmined@c08-pending0", "tx_status_not_recognized@c08-pending0"],
+        Tier::Quick => vec!["scan1@mid", "tip@fresh", "truncate@mid", "lock@mid", "create_account@fresh", "sapling_roots@fresh", "orchard_roots@fresh", "next_address@mid", "tip_beyond@mid", "mig_replace@none", "mig_supersede@live_locked", "mig_update_tx_mined@live", "lock_conflict@locked", "rewind_chain_state@full", "rewind_refused@sapling-checkpoints-above-only", "put_utxo_mined@mid", "store_sent_batch_p0_p1@c08-full", "store_decrypted_p1_unmined@c08-pending0", "tx_status_not_recognized@c08-pending0"],
         Tier::Thorough => vec![],
     }
 }
